@@ -270,6 +270,10 @@ func runC13Case(c c13Case) (o c13Obs) {
 				p.links[op.Link].ab.release()
 				waitRelayDrained(p, op.Link, want)
 			}
+		case "quiesce":
+			// everything sent so far has left the sender, crossed the relays and been handled
+			waitAllTapped(p, expect)
+			p.quiesce(expect, 0, 2*time.Second)
 		case "drop":
 			if op.Link < len(p.links) {
 				l := p.links[op.Link]
